@@ -9,7 +9,7 @@
    coefficients, for them the identities hold only approximately and stay correspondence-only. *)
 From Coq Require Import QArith Qreals Reals Ring_polynom List String Lia Lra.
 From EFLib Require Import PolyQ ElemDefs HermDefs.
-From EFModel Require Import C09_Loads.
+From EFModel Require Import C09_Loads C09_PolyBound.
 From EFP Require Import Gen_Hermite.
 Import ListNotations.
 
@@ -73,6 +73,43 @@ Proof.
   rewrite Reval_add, Reval_mul, Reval_map2_sum, Reval_pe_sum, Reval_X1 in H.
   rewrite Reval_const, Q2R_two in H. exact H.
 Qed.
+
+
+(* ---------------- every family, with the tolerance its representation allows -------------- *)
+(* EULER_BERNOULLI4/5 carry decimal-rationalised coefficients: the identities hold up to a residual
+   polynomial whose coefficient sum (a bound of its sup norm on [-1,1]) is checked to be <= 1e-12 *)
+Definition herm_load_tol : Q := 1 # 1000000000000.
+Definition chk_herm_load_tol (h : herm) : bool :=
+  Qle_bool (residual_norm (herm_force_pe h) (PEc (1#1))) herm_load_tol
+  && Qle_bool (residual_norm (herm_moment_pe h) (PEX Q 1)) herm_load_tol.
+
+(* (force residual <= 1e-13, moment residual <= 1e-13) per family, for the evidence *)
+Eval vm_compute in map (fun h => (hname h, Qle_bool (residual_norm (herm_force_pe h) (PEc (1#1))) (1 # 10000000000000),
+                                  Qle_bool (residual_norm (herm_moment_pe h) (PEX Q 1)) (1 # 10000000000000))) all_herm.
+
+Lemma all_herm_load_tol : forallb chk_herm_load_tol all_herm = true.
+Proof. vm_compute. reflexivity. Qed.
+
+Theorem hermite_identities_all_families : forall h, In h all_herm ->
+  forall xi : R, (-1 <= xi <= 1)%R ->
+  (Rabs (fold_right Rplus 0%R (map (Reval [xi]) (evens (hN h))) - 1) <= Q2R herm_load_tol)%R /\
+  (Rabs (fold_right Rplus 0%R (map2 (fun p x => (Reval [xi] p * Q2R x)%R) (evens (hN h)) (hnodes h))
+         + 2 * fold_right Rplus 0%R (map (Reval [xi]) (odds (hN h))) - xi) <= Q2R herm_load_tol)%R.
+Proof.
+  intros h Hh xi Hxi.
+  pose proof (proj1 (forallb_forall _ _) all_herm_load_tol h Hh) as H.
+  apply Bool.andb_true_iff in H as [H1 H2].
+  assert (Hb : unit_box [xi]).
+  { constructor; [|constructor]. apply Rabs_le. lra. }
+  pose proof (approx_identity_sound _ _ _ H1 [xi] Hb) as B1.
+  pose proof (approx_identity_sound _ _ _ H2 [xi] Hb) as B2.
+  unfold herm_force_pe in B1. rewrite Reval_pe_sum, Reval_const, Q2R_one in B1.
+  unfold herm_moment_pe in B2.
+  rewrite Reval_add, Reval_mul, Reval_map2_sum, Reval_pe_sum, Reval_X1, Reval_const, Q2R_two in B2.
+  split; assumption.
+Qed.
+
+Print Assumptions hermite_identities_all_families.
 
 Lemma EB2_ok : chk_herm_load h_EULER_BERNOULLI2 = true. Proof. vm_compute. reflexivity. Qed.
 Lemma EB3_ok : chk_herm_load h_EULER_BERNOULLI3 = true. Proof. vm_compute. reflexivity. Qed.
@@ -169,6 +206,108 @@ Proof.
     + intros el n [<-|[]] Hn. apply Hin. exact Hn.
     + intros el g [<-|[]] Hg. reflexivity.
 Qed.
+
+
+(* ---------------- SEG3 Euler-Bernoulli element (straight, mid node at the centre) ------------- *)
+(* dof weights given as an association list on the element's dofs *)
+Definition lookup (kv : list (nat * R)) (n : nat) : R :=
+  match find (fun p : nat * R => Nat.eqb (fst p) n) kv with Some p => snd p | None => 0%R end.
+
+Lemma lookup_nth (kv : list (nat * R)) : NoDup (map fst kv) ->
+  forall i, (i < List.length kv)%nat -> lookup kv (fst (nth i kv (0%nat, 0%R))) = snd (nth i kv (0%nat, 0%R)).
+Proof.
+  unfold lookup. induction kv as [|[k v] kv IH]; intros Hd i Hi; simpl in *. lia.
+  inversion Hd as [|? ? Hn Hd']; subst. destruct i as [|i]; simpl.
+  - now rewrite Nat.eqb_refl.
+  - destruct (Nat.eqb k (fst (nth i kv (0%nat, 0%R)))) eqn:E.
+    + apply Nat.eqb_eq in E. exfalso. apply Hn. rewrite E. apply in_map. apply nth_In. lia.
+    + apply IH; auto. lia.
+Qed.
+
+Lemma xgauss_lookup (kv : list (nat * R)) (e : lelem) (g : gpt) :
+  lnodes e = map fst kv -> NoDup (map fst kv) ->
+  xgauss (lookup kv) e g
+  = C09_Loads.Rsum (map (fun i => (snd (nth i kv (0%nat, 0%R)) * nthR i (Nrow g))%R) (seq 0 (List.length kv))).
+Proof.
+  intros Hl Hd. unfold xgauss, sumi, nPe. rewrite Hl, map_length.
+  apply Rsum_map_ext. intros i Hi. apply in_seq in Hi.
+  change 0%nat with (fst (0%nat, 0%R)) at 1. rewrite map_nth, lookup_nth; auto. lia.
+Qed.
+
+Lemma EB3_atoms xi : exists p1 s1 p2 s2 p3 s3,
+  map (Reval [xi]) (hN h_EULER_BERNOULLI3) = [p1; s1; p2; s2; p3; s3] /\
+  (p1 + p2 + p3 = 1)%R /\ (p1 * -1 + p2 * 1 + p3 * 0 + 2 * (s1 + s2 + s3) = xi)%R.
+Proof.
+  pose proof (hermite_force_identity _ EB3_ok xi) as H1.
+  pose proof (hermite_moment_identity _ EB3_ok xi) as H2.
+  remember (map (Reval [xi]) (hN h_EULER_BERNOULLI3)) as row eqn:E.
+  cbn [map hN h_EULER_BERNOULLI3] in E.
+  match type of E with row = [?a; ?b; ?c; ?d; ?e; ?f] => exists a, b, c, d, e, f end.
+  split; [exact E|].
+  cbn [map map2 evens odds hN hnodes h_EULER_BERNOULLI3 fold_right] in H1, H2.
+  rewrite Q2R_one, Q2R_mone in H2.
+  replace (Q2R (0 # 1)) with 0%R in H2 by (unfold Q2R; simpl; field).
+  split; lra.
+Qed.
+
+Section EB3_element.
+  Variables (xc L : R) (d0 d1 d2 d3 d4 d5 : nat).
+  Hypothesis distinct : NoDup [d0; d1; d2; d3; d4; d5].
+  Definition eb3_row (xi : R) : list R :=
+    match map (Reval [xi]) (hN h_EULER_BERNOULLI3) with
+    | [p1; s1; p2; s2; p3; s3] => [p1; (L * s1)%R; p2; (L * s2)%R; p3; (L * s3)%R]
+    | _ => []
+    end.
+  Definition eb3_elem (pts : list (R * R * R)) : lelem :=
+    mk_lelem [d0; d1; d2; d3; d4; d5]
+             (map (fun t : R * R * R => let '(xi, w, f) := t in mk_gpt w f (eb3_row xi)) pts) [].
+  (* force dofs weigh 1, rotation dofs 0 *)
+  Definition w3_force : nat -> R := lookup [(d0, 1); (d1, 0); (d2, 1); (d3, 0); (d4, 1); (d5, 0)]%R.
+  (* node coordinates on the force dofs (end nodes xc -+ L/2, mid node xc), 1 on the rotation dofs *)
+  Definition x3_herm : nat -> R :=
+    lookup [(d0, xc - L / 2); (d1, 1); (d2, xc + L / 2); (d3, 1); (d4, xc); (d5, 1)]%R.
+
+  Lemma eb3_xgauss pts g : In g (lpts (eb3_elem pts)) ->
+    exists xi, xgauss w3_force (eb3_elem pts) g = 1%R /\
+               xgauss x3_herm (eb3_elem pts) g = (xc + L / 2 * xi)%R.
+  Proof.
+    intros Hg. unfold eb3_elem in Hg. simpl in Hg. apply in_map_iff in Hg.
+    destruct Hg as [[[xi w] f] [<- _]]. exists xi.
+    destruct (EB3_atoms xi) as [p1 [s1 [p2 [s2 [p3 [s3 [E [H1 H2]]]]]]]].
+    unfold w3_force, x3_herm. rewrite !xgauss_lookup; try reflexivity; try exact distinct.
+    cbn [Nrow]. unfold eb3_row. rewrite E. unfold nthR. simpl.
+    split; [lra|]. assert (Hp : p3 = 1 - p1 - p2) by lra. rewrite <- H2, Hp. field.
+  Qed.
+
+  Theorem C09_hermite_force_resultant_SEG3 (pts : list (R * R * R)) ns : NoDup ns ->
+    (forall n, In n [d0; d1; d2; d3; d4; d5] -> In n ns) ->
+    C09_Loads.Rsum (map (fun n => (w3_force n * vec (contribs F_call [eb3_elem pts]) n)%R) ns)
+    = quad_sum [eb3_elem pts] (fun _ g => fv g).
+  Proof.
+    intros Hns Hin.
+    rewrite (first_moment_with w3_force (fun _ _ => 1%R)); auto.
+    - unfold quad_sum. apply Rsum_map_ext. intros el _. apply Rsum_map_ext. intros g _. lra.
+    - intros el n [<-|[]] Hn. apply Hin. exact Hn.
+    - intros el g [<-|[]] Hg. destruct (eb3_xgauss pts g Hg) as [xi [H _]]. exact H.
+  Qed.
+
+  Theorem C09_hermite_moment_SEG3 (pts : list (R * R * R)) ns : NoDup ns ->
+    (forall n, In n [d0; d1; d2; d3; d4; d5] -> In n ns) ->
+    exists xp : gpt -> R,
+      (forall g, In g (lpts (eb3_elem pts)) -> exists xi, xp g = (xc + L / 2 * xi)%R) /\
+      C09_Loads.Rsum (map (fun n => (x3_herm n * vec (contribs F_call [eb3_elem pts]) n)%R) ns)
+      = quad_sum [eb3_elem pts] (fun _ g => (xp g * fv g)%R).
+  Proof.
+    intros Hns Hin.
+    exists (fun g => xgauss x3_herm (eb3_elem pts) g). split.
+    - intros g Hg. destruct (eb3_xgauss pts g Hg) as [xi [_ H]]. exists xi. exact H.
+    - apply first_moment_with; auto.
+      + intros el n [<-|[]] Hn. apply Hin. exact Hn.
+      + intros el g [<-|[]] Hg. reflexivity.
+  Qed.
+End EB3_element.
+
+Print Assumptions C09_hermite_moment_SEG3.
 
 Print Assumptions hermite_force_identity.
 Print Assumptions hermite_moment_identity.
